@@ -22,7 +22,7 @@ NATIVE_VARIANT = 'opt'
 def plan(tier: str, seed: int) -> List[Dict[str, Any]]:
     quick = tier == 'quick'
     n, per = (16, 200) if quick else (64, 2500)
-    return [{'seed': seed, 'shard': i, 'cases': per, 'timeout_s': 1500 if quick else 7200} for i in range(n)]
+    return [{'seed': seed, 'shard': i, 'cases': per, 'cli_cases': 12 if quick else 150, 'timeout_s': 1500 if quick else 7200} for i in range(n)]
 
 
 # ------------------------------------------------------------------------------ command scripts
@@ -371,6 +371,127 @@ def one_case(rng: random.Random, counters: Dict[str, Any], journal: Any) -> Tupl
     return violations, case_hash([case, script, sorted(model_bps)]) if pauses else None, sample
 
 
+# ------------------------------------------------------------------------------ the same sessions through the fj command
+def cli_source(rng: random.Random) -> Tuple[str, int]:
+    """a small program without the library and without input/output (the command's debugger and the program share the
+    terminal): labelled ops, macros whose first address has no label of its own (the assembler names it '...---:start:'),
+    a namespace, flips of a scratch word; ends in a self-loop."""
+    w = rng.choice([16, 32, 64])
+    lines = ['def blink < scratch {', '    ;', '    scratch+1;', '}', 'def hop @ here {', '  here:', '    ;', '}',
+             'ns box {', '    def twice {', '        blink', '        ;', '    }', '}', '',
+             '    ;code_start', 'IO:', '    ;0', 'code_start:']   # (the op at 2w is the input/output op: never executed)
+    for k in range(rng.randrange(3, 12)):
+        r = rng.random()
+        if r < 0.3:
+            lines.append(f'L{k}:')
+            lines.append(f'    scratch+{rng.randrange(w)};' if rng.random() < 0.5 else '    ;')
+        elif r < 0.55:
+            lines.append('    blink')
+        elif r < 0.7:
+            lines.append('    hop')
+        elif r < 0.85:
+            lines.append('    box.twice')
+        else:
+            lines += ['ns box {', f'  mark{k}:', '    ;', '}']
+    lines += ['end:', '    ;end', 'scratch:', '    ;0', '']
+    return '\n'.join(lines), w
+
+
+def termination_in(text: str) -> Optional[Tuple[str, int]]:
+    m = re.search(r'Finished by (\S+)[^\n]*?\(([\d,]+) ops executed', text)
+    return (m.group(1), int(m.group(2).replace(',', ''))) if m else None
+
+
+def run_cli(args: List[str], script: List[str]) -> Dict[str, Any]:
+    from flipjump import flipjump_cli
+
+    out, err = io.StringIO(), io.StringIO()
+    old_stdin = sys.stdin
+    sys.stdin = io.StringIO(''.join(line + '\n' for line in script))
+    engines.clear_env()
+    result: Dict[str, Any] = {'exc': None}
+    try:
+        with contextlib.redirect_stdout(out), contextlib.redirect_stderr(err):
+            flipjump_cli.assemble_run_according_to_cmd_line_args(cmd_line_args=list(args))
+    except SystemExit as exc:
+        result['exit'] = exc.code
+    except BaseException as exc:  # noqa: B902
+        result['exc'] = f'{type(exc).__name__}: {str(exc)[:200]}'
+    finally:
+        sys.stdin = old_stdin
+    result['text'] = out.getvalue()
+    result['err'] = err.getvalue()
+    return result
+
+
+def cli_case(rng: random.Random, counters: Dict[str, Any], journal: Any) -> List[Dict[str, Any]]:
+    import flipjump
+    from flipjump.fjm.fjm_reader import Reader
+    from flipjump.utils.functions import load_debugging_labels
+
+    source, w = cli_source(rng)
+    d = engines.tmpdir()
+    src, fjm, dbg = d / 'c15cli.fj', d / 'c15cli.fjm', d / 'c15cli.fjd'
+    src.write_text(source)
+    flipjump.assemble([src], fjm, memory_width=w, use_stl=False, debugging_file_path=dbg, print_time=False)
+    labels = load_debugging_labels(dbg)
+    reader = Reader(fjm)
+    case = {'w': w, 'segments': [[sg.segment_start, sg.segment_length] for sg in reader.memory_segments],
+            'mem': [[k, v] for k, v in reader.memory.items() if v], 'input': ''}
+    ref = imagegen.reference_run(case)
+    executed = sorted(ref.visits)
+    on_path = sorted(n for n, a in labels.items() if a in ref.visits and not n.startswith('-'))   # (a command-line word)
+    starts = [n for n in on_path if n.endswith(':start:')]
+    bp_labels = set(rng.sample(on_path, min(len(on_path), rng.choice([0, 1, 2])))) | ({'missing_label'} if rng.random() < 0.1 else set())
+    if starts and rng.random() < 0.5:
+        bp_labels.add(rng.choice(starts))
+    bp_contains = set(rng.sample(['L', 'blink', 'start', 'hop', 'box.', 'mark', 'nomatch', 'end'], rng.choice([0, 0, 1, 2])))
+    if not bp_labels and not bp_contains:
+        bp_labels = {rng.choice(on_path)}
+    model_bps = {labels[n] for n in bp_labels if n in labels} | {a for n, a in labels.items() if any(sub in n for sub in bp_contains)}
+    script = gen_script(rng, labels, w, executed + [labels['scratch']])
+    session = Session(case, model_bps, labels, script)
+    session.run()
+    if session.final[0] == 'cut':
+        return []
+    silent = rng.random() < 0.5
+    bp_args = (['-b'] + sorted(bp_labels) if bp_labels else []) + (['-B'] + sorted(bp_contains) if bp_contains else [])
+    common = (['-s'] if silent else []) + bp_args
+    routes = {
+        'run-only': ['--run', str(fjm), '-d', str(dbg)] + common,
+        'one-step': [str(src), '--no_stl', '-w', str(w)] + common + rng.choice([[], ['-d'], ['-d', str(d / 'c15cli-onestep.fjd')]]),
+    }
+    replay = {'source': source, 'w': w, 'script': script, 'routes': routes}
+    journal.note({'cli': replay})
+    violations: List[Dict[str, Any]] = []
+    for route, args in routes.items():
+        real = run_cli(args, script)
+        counters['monitor_evaluations'] = counters.get('monitor_evaluations', 0) + 1
+        counters['cli_sessions'] = counters.get('cli_sessions', 0) + 1
+        counters[f'cli_sessions/{route}'] = counters.get(f'cli_sessions/{route}', 0) + 1
+        counters['cli_pauses_checked'] = counters.get('cli_pauses_checked', 0) + sum(1 for e in session.events if e[0] == 'pause')
+        if any(n.endswith(':start:') for n in bp_labels):
+            counters['cli_sessions_with_a_macro_start_breakpoint'] = counters.get('cli_sessions_with_a_macro_start_breakpoint', 0) + 1
+        got = parse_output(real['text'])
+        if real['exc'] or real.get('exit') not in (None, 0):
+            violations.append({'key': f'cli/{route}/session-raised', 'what': f'fj {args[-6:]} ended with {real["exc"] or real.get("exit")}: {real["err"][-200:]}',
+                               'replay': replay})
+        elif got != session.events:
+            first = next((i for i, (a, b) in enumerate(zip(got, session.events)) if a != b), min(len(got), len(session.events)))
+            violations.append({'key': f'cli/{route}/pause-or-read-sequence',
+                               'what': f'event #{first}: fj {got[first:first + 2]} model {session.events[first:first + 2]} (of {len(got)}/{len(session.events)}; '
+                                       f'breakpoints {sorted(bp_labels)} contains {sorted(bp_contains)}, silent={silent})', 'replay': replay})
+        elif not silent:
+            term = termination_in(real['text'])
+            if term is None:
+                counters['cli_termination_not_parsed'] = counters.get('cli_termination_not_parsed', 0) + 1
+            elif term != (session.final[0], session.final[1]):
+                violations.append({'key': f'cli/{route}/termination', 'what': f'fj reports {term}, model {session.final[:2]}', 'replay': replay})
+            else:
+                counters['cli_terminations_checked'] = counters.get('cli_terminations_checked', 0) + 1
+    return violations
+
+
 def run_shard(spec: Dict[str, Any], journal: Any) -> Dict[str, Any]:
     rng = rng_for(spec['seed'], PROPERTY, spec['shard'])
     counters: Dict[str, Any] = {}
@@ -386,6 +507,10 @@ def run_shard(spec: Dict[str, Any], journal: Any) -> Dict[str, Any]:
             hashes.append(h)
         if sample and len(samples) < 1:
             samples.append(sample)
+    for _ in range(spec.get('cli_cases', 0)):
+        for v in cli_case(rng, counters, journal):
+            if sum(1 for x in violations if x['key'] == v['key']) < 3:
+                violations.append(v)
     engines.cleanup_tmpdir()
     return {'counters': counters, 'violations': violations, 'hashes': hashes, 'samples': samples,
             'evaluations': counters.get('monitor_evaluations', 0)}
@@ -404,6 +529,8 @@ def finalize(tier: str, seed: int, counters: Dict[str, Any], evaluations: int, d
             inconclusive.append(f'debugger event {k!r} never produced')
     if counters.get('pauses_checked', 0) < 500:
         inconclusive.append(f'only {counters.get("pauses_checked", 0)} pauses checked')
+    if counters.get('cli_sessions', 0) < 100 or counters.get('cli_sessions_with_a_macro_start_breakpoint', 0) < 10:
+        inconclusive.append(f'only {counters.get("cli_sessions", 0)} sessions through the fj command')
     return {
         'coverage': {
             'rule': 'generated images run under flipjump.debug with breakpoints by address, exact label and substring over '
@@ -412,7 +539,10 @@ def finalize(tier: str, seed: int, counters: Dict[str, Any], evaluations: int, d
                     'variables with indices, help, unknown and malformed commands, EOF). stdin is replaced by the script and the '
                     'printed "Address .. / N ops executed" blocks and read results are parsed and compared with a debugger model '
                     'layered on the reference machine; final termination, device output and memory must equal the model (which, '
-                    'without quit, equals the undebugged run). evaluation = one session',
+                    'without quit, equals the undebugged run). the same model also judges sessions through the fj command itself '
+                    '(assemble_run_according_to_cmd_line_args in-process, script on stdin): generated no-library sources with labels, '
+                    'namespaces and label-less macro starts (---:start: names), -b / -B breakpoints, silent or not, run-only with -d FILE '
+                    'and the one-step flow with -d FILE, bare -d or no -d at all (temporary label file). evaluation = one session',
         },
         'inconclusive': inconclusive,
         'assumptions': ['the command grammar of the model is transcribed from DEBUGGER_HELP', 'featured loop only (the debugger forces it)'],
